@@ -431,6 +431,7 @@ func runC04(c *Ctx) {
 	checkIteratorNilOnlyAtExhaustion(c, "index-count.iterator-nil-at-exhaustion")
 	checkSpecificKeysPlumbing(c, "plumbing.selected-keys")
 	checkDownloadWrites(c, "plumbing.download-writes")
+	checkGenericErrorDiscipline(c, "pkg/core")
 }
 
 // disjuncts splits a || b || c.
